@@ -709,14 +709,24 @@ func r205(c *Ctx) {
 	}
 	c.ob(rule, "CommandHandler.List/replies-with-ListActiveServices", lh.Pos(), okL, true, "")
 	// displayResponse: one row per key, six columns from that entry
-	dr := c.methodIn(c.cmd, "listCommand", "displayResponse")
+	// (the printing helper of the reference tree, displayResponse, is always expanded into the list command's run)
+	dr := c.methodIn(c.cmd, "listCommand", "run")
 	// (the order of the rows is not part of the property and is not checked)
 	rows := 0
-	for _, cs := range callsTo(dr, c.methodIn(c.cmd, "Table", "AddRow")) {
-		if inLoop(cs.instr.Block()) {
-			rows++
-			n := len(varargElemsOfSliceLit(cs.common().Args[1]))
-			c.ob(rule, "displayResponse/row-has-six-columns", cs.pos(), n == 6 && len(dominatingCondsOtherThanLoop(cs.instr)) == 0, true, fmt.Sprintf("%d columns", n))
+	for _, fn := range withAnon(dr) {
+		for _, cs := range callsTo(fn, c.methodIn(c.cmd, "Table", "AddRow")) {
+			if inLoop(cs.instr.Block()) {
+				rows++
+				n := len(varargElemsOfSliceLit(cs.common().Args[1]))
+				// (conditions of the form "the call to the server did not fail" do not make a row conditional)
+				nCond := 0
+				for _, ce := range dominatingCondsOtherThanLoop(cs.instr) {
+					if !guardIsErrNil(ce) {
+						nCond++
+					}
+				}
+				c.ob(rule, "displayResponse/row-has-six-columns", cs.pos(), n == 6 && nCond == 0, true, fmt.Sprintf("%d columns, %d conditions", n, nCond))
+			}
 		}
 	}
 	c.ob(rule, "displayResponse/one-row-per-service", dr.Pos(), rows == 1, true, "")
